@@ -1,8 +1,8 @@
 ------------------------------- MODULE Trace_Poly -------------------------------
 (* C07 and C15: every recorded (polygon, resolution) fill.  f[1] = polygonToCells (legacy, centre containment),
    f[2..5] = polygonToCellsExperimental in modes CENTER, FULL, OVERLAPPING, OVERLAPPING_BBOX, each with the bound its
-   size function announced.  WHICH = "C07" restricts the judgement to the two centre fills, "C15" to the modes,
-   nesting, capacity and flag clauses. *)
+   size function announced.  WHICH = "C07" restricts the judgement to the two centre fills ("C07L" / "C07E": to one of them, so
+   that a finding about one algorithm cannot hide a violation of the other), "C15" to the modes, nesting, capacity and flag clauses. *)
 EXTENDS H3Polygon, TraceBase
 VARIABLE l
 vars == <<l>>
@@ -10,13 +10,14 @@ WHICH == IF "WHICH" \in DOMAIN IOEnv THEN IOEnv.WHICH ELSE "ALL"
 E_MEMORY_BOUNDS == 14
 E_OPTION_INVALID == 15
 
-C07OK(e) ==
-  LET S1 == Range(e.f[1].out)   S2 == Range(e.f[2].out) IN
-  /\ Basics(e.f[1], e.res) /\ Basics(e.f[2], e.res)
-  /\ S1 \subseteq CandWords(e.cand) /\ S2 \subseteq CandWords(e.cand)
-  /\ CenterOK(S1, e.cand)
-  /\ CenterOK(S2, e.cand)
+\* one centre-containment fill: k = 1 polygonToCells (legacy), k = 2 polygonToCellsExperimental(CENTER)
+CenterFillOK(e, k) ==
+  LET S == Range(e.f[k].out) IN
+  /\ Basics(e.f[k], e.res)
+  /\ S \subseteq CandWords(e.cand)
+  /\ CenterOK(S, e.cand)
   /\ (Len(e.cand) <= 1200 => Closed(e.cand))
+C07OK(e) == CenterFillOK(e, 1) /\ CenterFillOK(e, 2)
 
 C15OK(e) ==
   LET C == Range(e.f[2].out)  F == Range(e.f[3].out)  O == Range(e.f[4].out)  B == Range(e.f[5].out) IN
@@ -37,6 +38,8 @@ Ev == Tr[l]
 \* (the IF forces TLC to evaluate the judgement as a plain expression instead of unfolding its quantifiers as an action)
 EvOK(e) ==
   CASE e.e = "polyfill"  -> /\ (WHICH \in {"C07", "ALL"} => C07OK(e))
+                            /\ (WHICH = "C07L" => CenterFillOK(e, 1))          \* the two algorithms judged separately
+                            /\ (WHICH = "C07E" => CenterFillOK(e, 2))
                             /\ (WHICH \in {"C15", "ALL"} => C15OK(e))
     [] e.e = "polycap"   -> (WHICH \in {"C15", "ALL"} => CapOK(e))
     [] e.e = "polyflags" -> (WHICH \in {"C15", "ALL"} => FlagsOK(e))
